@@ -129,7 +129,9 @@ def base_pool(win, rich=False):
     """well-formed bases: each prefix kind or none, rooted or not, 0-2 components incl . and .., trailing separators"""
     out = []
     if win:
-        prefixes = [b'', b'C:', b'c:', b'\\\\s\\sh', b'//s/sh', b'\\\\?\\C:', b'\\\\?\\UNC\\s\\sh', b'\\\\?\\pic', b'\\\\.\\dev']
+        prefixes = [b'', b'C:', b'c:', b'\\\\s\\sh', b'//s/sh', b'\\\\?\\C:', b'\\\\?\\UNC\\s\\sh', b'\\\\?\\pic', b'\\\\.\\dev',
+                    # incomplete or colon-ended prefixes: a separator and a name after them may spell a longer prefix
+                    b'\\\\s', b'\\\\?\\UNC\\s', b'\\\\?\\UNC', b'\\\\.\\C:', b'\\\\s\\C:', b'\\\\?\\pic:']
         roots = [b'', b'\\', b'/']
         seps = [b'\\', b'/']
     else:
